@@ -1062,7 +1062,11 @@ class RewriteAtQuery(NodeTransformer):
                     )
 
                 if idx is not None and len(node.args.defaults) > idx:
-                    new_default = get_value(self.replacement_node)
+                    new_default = (
+                        self.replacement_node.value
+                        if isinstance(self.replacement_node, AnnAssign)
+                        else get_value(self.replacement_node)
+                    )  # `get_value` turns "no value" into the code-quoted None marker, a str, not a node
                     if new_default is not None:
                         node.args.defaults[idx] = new_default
 
